@@ -199,6 +199,21 @@ pub fn check(c: &Case) -> Outcome {
                     if let Some(t) = te.iter().find(|t| (**t - t_stop) * d > 0.0) {
                         return Outcome::viol(format!("{}: the run stops at the terminal event at {:e}, yet an event of function {} ({:?}) is reported at {:e}, outside the integrated span", name, t_stop, k, evt[k].g, t));
                     }
+                    // y_e = continuous solution at t_e also in the run that stops there (the last stored step is the one cut by the stop)
+                    for (t, y) in te.iter().zip(&st.y_events[k]) {
+                        let mut fy = vec![0.0; n];
+                        crate::instr::Rhs::f(&prob, *t, y, &mut fy);
+                        let slope = inf_norm(&fy);
+                        let tol = 1e-10 * (1.0 + inf_norm(y)) + 8.0 * slope * ulp(t.abs().max(sp.x0.abs())) + 2.0 * slope * 2e-12;
+                        match st.sol(*t) {
+                            Ok(v) => {
+                                if max_abs_diff(&v, y) > tol {
+                                    return Outcome::viol(format!("{}: run stopped by a terminal event at {:e}: event state of function {} at t={:e} differs from sol(t) by {:e} (tol {:e})", name, t_stop, k, t, max_abs_diff(&v, y), tol));
+                                }
+                            }
+                            Err(er) => return Outcome::viol(format!("{}: run stopped by a terminal event at {:e}: sol() failed at event time {:e}: {}", name, t_stop, t, er)),
+                        }
+                    }
                 }
             }
         }
@@ -226,7 +241,7 @@ pub fn run(ctx: &Ctx, known: &[Known]) -> Report {
     let stats = run_generated(ctx, "C08", "gen", &strategy, &check, cases, known);
     Report {
         id: "C08".into(),
-        rule: "two-phase cases as in C09 (1..4 event functions with roots placed mid-step, 1e-13..1e-9 beside a grid point, several in one step; all three direction filters; both integration directions; six methods; dense_output on). For every reported (t_e, y_e): inside an accepted step of the span, y_e = sol(t_e), |g(t_e,y_e)| within root-finder accuracy scaled by the sampled Lipschitz constant of g along the dense solution, sign pattern of g at the bracketing step ends agrees with the configured direction in the order of integration, per-function events ordered, shapes match. Non-trivial = at least one event whose |g| exceeds 1e-9 at both bracket ends. Distinct = distinct canonical JSON.".into(),
+        rule: "two-phase cases as in C09 (1..4 event functions with roots placed mid-step, 1e-13..1e-9 beside a grid point, several in one step; all three direction filters; both integration directions; six methods; dense_output on). For every reported (t_e, y_e): inside an accepted step of the span, y_e = sol(t_e), |g(t_e,y_e)| within root-finder accuracy scaled by the sampled Lipschitz constant of g along the dense solution, sign pattern of g at the bracketing step ends agrees with the configured direction in the order of integration, per-function events ordered, shapes match; the same y_e = sol(t_e) clause in the run that carries the recipes' terminal flags and stops at an event. Non-trivial = at least one event whose |g| exceeds 1e-9 at both bracket ends. Distinct = distinct canonical JSON.".into(),
         assumptions: vec![
             "|g| bound = 2e-12 (end-point shortcut of the root finder, slope independent) + 8*Lip*(2e-12 + 4 eps |t|) + 16 eps * (magnitude of g's terms)".into(),
             "event functions with O(1) slopes (not scaled below 1e-9)".into(),
